@@ -204,6 +204,9 @@ Section Crypto.
   Notation write_chunks := (write_chunks hstate upd).
   Notation write_chunk := (write_chunk hstate upd).
   Notation close_target := (close_target hstate fin).
+  Notation ts_next := (ts_next hstate).
+  Notation ts_written := (ts_written hstate).
+  Notation ts_h := (ts_h hstate).
 
   Lemma validate_eq : forall e unp allow nest o,
     validate e unp allow nest o =
@@ -410,18 +413,34 @@ Section Crypto.
   Qed.
 
   (* ---- the validating target ------------------------------------------------------------ *)
+  (* acceptance of a chunk only depends on the running total *)
+  Definition fits (e : env) (ecp : bool) (o : obj) (total : N) : bool :=
+    (total <=? o_size o) && quota_ok e ecp false total.
+
+  Lemma write_chunk_spec : forall e ecp o st p,
+    write_chunk e ecp o st p =
+    if fits e ecp o (ts_written st + blen p)
+    then Some (mkts hstate (ts_written st + blen p) (upd (ts_h st) p) (ts_next st ++ p)) else None.
+  Proof.
+    intros. unfold Model.write_chunk, fits. cbn [Model.ts_written].
+    destruct (o_size o <? ts_written st + blen p) eqn:E1.
+    - apply N.ltb_lt in E1. destruct (ts_written st + blen p <=? o_size o) eqn:E2; [apply N.leb_le in E2; lia|reflexivity].
+    - apply N.ltb_ge in E1. destruct (ts_written st + blen p <=? o_size o) eqn:E2; [|apply N.leb_gt in E2; lia].
+      cbn [andb]. destruct (quota_ok e ecp false (ts_written st + blen p)); reflexivity.
+  Qed.
+
   Lemma write_chunks_inv : forall e ecp o cs st i st',
     write_chunks e ecp o st i cs = inr st' ->
     ts_next st' = ts_next st ++ concat cs /\
     ts_written st' = ts_written st + blen (concat cs) /\
     ts_h st' = fold_left upd cs (ts_h st).
   Proof.
-    induction cs as [|p r IH]; intros st i st' Hw; cbn in Hw.
-    - inversion Hw; subst st'. cbn. rewrite app_nil_r. unfold blen. cbn. repeat split. lia.
-    - unfold Model.write_chunk in Hw.
-      destruct (o_size o <? ts_written st + blen p); [discriminate|].
-      destruct (negb (quota_ok e ecp false (ts_written st + blen p))); [discriminate|].
-      cbn in Hw. destruct (IH _ _ _ Hw) as [H1 [H2 H3]]. cbn [ts_next ts_written ts_h] in *.
+    induction cs as [|p r IH]; intros st i st' Hw; cbn [Model.write_chunks] in Hw.
+    - inversion Hw; subst st'. cbn [concat fold_left]. rewrite app_nil_r. unfold blen. cbn [length N.of_nat].
+      repeat split. lia.
+    - rewrite write_chunk_spec in Hw.
+      destruct (fits e ecp o (ts_written st + blen p)); [|discriminate].
+      destruct (IH _ _ _ Hw) as [H1 [H2 H3]]. cbn [Model.ts_next Model.ts_written Model.ts_h] in *.
       cbn [concat fold_left]. rewrite H1, H2, H3. rewrite <- app_assoc. unfold blen. rewrite app_length.
       repeat split. lia.
   Qed.
@@ -457,7 +476,7 @@ Section Crypto.
     inversion Hr; subst o2 p2. clear Hr.
     destruct (write_header_some _ _ _ _ Eh) as [Hst [Hv [[v Hcs] _]]]. subst st.
     destruct (write_chunks_inv _ _ _ _ _ _ _ Ew) as [Hn [Hw Hh]].
-    unfold hdr_state in *. cbn [ts_next ts_written ts_h] in *. rewrite Hnp in Hw. cbn in Hw.
+    unfold hdr_state in *. cbn [Model.ts_next Model.ts_written Model.ts_h] in *. rewrite Hnp in Hw. cbn in Hw.
     unfold Model.close_target in Ec.
     destruct (o_size o =? ts_written st') eqn:Esz; cbn [negb] in Ec; [|discriminate].
     destruct (bytes_eqb (fin (ts_h st')) (cs_value o)) eqn:Ecs; cbn [negb] in Ec; [|discriminate].
@@ -514,10 +533,6 @@ Section Crypto.
   Qed.
 
   (* ---- chunking ------------------------------------------------------------------------ *)
-  (* acceptance of a chunk list only depends on the concatenation *)
-  Definition fits (e : env) (ecp : bool) (o : obj) (total : N) : bool :=
-    (total <=? o_size o) && quota_ok e ecp false total.
-
   Lemma quota_mono : forall e ecp a b, a <= b -> quota_ok e ecp false b = true -> quota_ok e ecp false a = true.
   Proof.
     unfold quota_ok. intros e ecp a b Hab Hq. destruct (e_quota e) as [hard|]; [|reflexivity].
@@ -525,40 +540,32 @@ Section Crypto.
     rewrite N.add_0_r in *. nia.
   Qed.
 
+  Lemma blen_app : forall a b, blen (a ++ b) = blen a + blen b.
+  Proof. intros. unfold blen. rewrite app_length. lia. Qed.
+  Lemma blen_nil : blen [] = 0.
+  Proof. reflexivity. Qed.
+
   Lemma write_chunks_ok_iff : forall e ecp o cs st i,
-    quota_ok e ecp false (ts_written st) = true \/ True ->
     (exists st', write_chunks e ecp o st i cs = inr st') <->
     (forall pre p post, cs = pre ++ p :: post ->
        fits e ecp o (ts_written st + blen (concat pre) + blen p) = true).
   Proof.
-    induction cs as [|p r IH]; intros st i _; cbn.
+    induction cs as [|p r IH]; intros st i; cbn [Model.write_chunks].
     - split; [intros _ pre p post Hh; destruct pre; discriminate | intros _; eexists; reflexivity].
-    - unfold Model.write_chunk, fits. split.
+    - rewrite write_chunk_spec. split.
       + intros [st' Hw].
-        destruct (o_size o <? ts_written st + blen p) eqn:Eo; [discriminate|].
-        destruct (quota_ok e ecp false (ts_written st + blen p)) eqn:Eq; cbn [negb] in Hw; [|discriminate].
-        intros pre q post Hh. destruct pre as [|x pre]; cbn in Hh; inversion Hh; subst.
-        * cbn. unfold blen at 1. cbn. rewrite N.add_0_r. apply andb_true_iff. split; [apply N.leb_le; apply N.ltb_ge in Eo; exact Eo | exact Eq].
-        * pose proof (proj1 (IH _ (S i) (or_intror I)) (ex_intro _ st' Hw) pre q post eq_refl) as Hf.
-          cbn [ts_written] in Hf. cbn [concat]. unfold blen in *. rewrite app_length.
-          replace (ts_written st + N.of_nat (length x + length (concat pre)) + N.of_nat (length q))
-            with (ts_written st + N.of_nat (length x) + N.of_nat (length (concat pre)) + N.of_nat (length q)) by lia.
-          exact Hf.
+        destruct (fits e ecp o (ts_written st + blen p)) eqn:Ef; [|discriminate].
+        intros pre q post Hh. destruct pre as [|x pre]; cbn [app] in Hh; inversion Hh; subst.
+        * cbn [concat]. rewrite blen_nil, N.add_0_r. exact Ef.
+        * pose proof (proj1 (IH _ (S i)) (ex_intro _ st' Hw) pre q post eq_refl) as Hf.
+          cbn [Model.ts_written] in Hf. cbn [concat]. rewrite blen_app, N.add_assoc. exact Hf.
       + intros Hall.
-        pose proof (Hall [] p r eq_refl) as H0. cbn in H0. unfold blen at 1 in H0. cbn in H0. rewrite N.add_0_r in H0.
-        apply andb_true_iff in H0. destruct H0 as [Ha Hb]. apply N.leb_le in Ha.
-        destruct (o_size o <? ts_written st + blen p) eqn:Eo; [apply N.ltb_lt in Eo; lia|].
-        rewrite Hb. cbn [negb]. apply (IH _ (S i) (or_intror I)).
-        intros pre q post Hh. cbn [ts_written].
+        pose proof (Hall [] p r eq_refl) as H0. cbn [concat] in H0. rewrite blen_nil, N.add_0_r in H0.
+        rewrite H0. apply (IH _ (S i)).
+        intros pre q post Hh. cbn [Model.ts_written].
         pose proof (Hall (p :: pre) q post) as Hf. cbn [app concat] in Hf. rewrite Hh in Hf. specialize (Hf eq_refl).
-        unfold blen in *. rewrite app_length in Hf.
-        replace (ts_written st + N.of_nat (length p) + N.of_nat (length (concat pre)) + N.of_nat (length q))
-          with (ts_written st + N.of_nat (length p + length (concat pre)) + N.of_nat (length q)) by lia.
-        exact Hf.
+        rewrite blen_app, N.add_assoc in Hf. exact Hf.
   Qed.
-
-  Lemma blen_app : forall a b, blen (a ++ b) = blen a + blen b.
-  Proof. intros. unfold blen. rewrite app_length. lia. Qed.
 
   Lemma concat_split_len : forall cs pre p post, cs = pre ++ p :: post ->
     blen (concat pre) + blen p <= blen (concat cs).
@@ -572,7 +579,7 @@ Section Crypto.
     ((exists st', write_chunks e ecp o st 0 cs = inr st') <->
      fits e ecp o (ts_written st + blen (concat cs)) = true \/ (cs = [] )) .
   Proof.
-    intros e ecp o cs st Hq0. rewrite (write_chunks_ok_iff e ecp o cs st 0 (or_intror I)). split.
+    intros e ecp o cs st Hq0. rewrite (write_chunks_ok_iff e ecp o cs st 0). split.
     - intro Hall. destruct cs as [|c cs']; [right; reflexivity|]. left.
       destruct (exists_last (l := c :: cs') ltac:(discriminate)) as [pre [p Hh]].
       pose proof (Hall pre p [] Hh) as Hf. rewrite Hh. rewrite concat_app. cbn [concat]. rewrite app_nil_r.
@@ -610,28 +617,28 @@ Section Crypto.
     destruct (write_chunks e ecp o (hdr_state o) 0 c1) as [i1|s1] eqn:E1;
       destruct (write_chunks e ecp o (hdr_state o) 0 c2) as [i2|s2] eqn:E2; cbn [fst snd].
     - split; reflexivity.
-    - (* c2 accepted, c1 not: impossible unless c2 = [] and then c1 has only empty chunks *)
+    - (* c2 accepted, c1 not: impossible *)
       exfalso.
-      assert (X2 : exists st', inr s2 = inr st') by (eexists; reflexivity).
-      assert (N1 : ~ exists st', @inl nat (tstate hstate) i1 = inr st') by (intros [x Hx]; discriminate).
-      apply T2 in X2. apply N1. apply T1.
-      destruct X2 as [Hf|Hn].
-      + left. rewrite Hcc. exact Hf.
-      + subst c2. cbn in Hcc. left. rewrite Hcc. unfold fits. unfold blen. cbn. rewrite N.add_0_r.
-        apply andb_true_iff. split; [|exact Hq0]. unfold hdr_state. cbn. rewrite Hnp. cbn. apply N.leb_le. lia.
+      assert (Hz : fits e ecp o (ts_written (hdr_state o) + 0) = true).
+      { unfold fits. rewrite N.add_0_r. apply andb_true_iff. split; [|exact Hq0].
+        unfold hdr_state. cbn [Model.ts_written]. rewrite Hnp. apply N.leb_le. cbn. lia. }
+      destruct (proj1 T2 (ex_intro _ s2 eq_refl)) as [Hf|Hn].
+      + rewrite <- Hcc in Hf. destruct (proj2 T1 (or_introl Hf)) as [x Hx]. discriminate.
+      + subst c2. cbn [concat] in Hcc. rewrite Hcc in T1. rewrite blen_nil in T1.
+        destruct (proj2 T1 (or_introl Hz)) as [x Hx]. discriminate.
     - exfalso.
-      assert (X1 : exists st', inr s1 = inr st') by (eexists; reflexivity).
-      assert (N2 : ~ exists st', @inl nat (tstate hstate) i2 = inr st') by (intros [x Hx]; discriminate).
-      apply T1 in X1. apply N2. apply T2.
-      destruct X1 as [Hf|Hn].
-      + left. rewrite <- Hcc. exact Hf.
-      + subst c1. cbn in Hcc. left. rewrite <- Hcc. unfold fits. unfold blen. cbn. rewrite N.add_0_r.
-        apply andb_true_iff. split; [|exact Hq0]. unfold hdr_state. cbn. rewrite Hnp. cbn. apply N.leb_le. lia.
+      assert (Hz : fits e ecp o (ts_written (hdr_state o) + 0) = true).
+      { unfold fits. rewrite N.add_0_r. apply andb_true_iff. split; [|exact Hq0].
+        unfold hdr_state. cbn [Model.ts_written]. rewrite Hnp. apply N.leb_le. cbn. lia. }
+      destruct (proj1 T1 (ex_intro _ s1 eq_refl)) as [Hf|Hn].
+      + rewrite Hcc in Hf. destruct (proj2 T2 (or_introl Hf)) as [x Hx]. discriminate.
+      + subst c1. cbn [concat] in Hcc. rewrite <- Hcc in T2. rewrite blen_nil in T2.
+        destruct (proj2 T2 (or_introl Hz)) as [x Hx]. discriminate.
     - destruct (write_chunks_inv _ _ _ _ _ _ _ E1) as [A1 [B1 C1]].
       destruct (write_chunks_inv _ _ _ _ _ _ _ E2) as [A2 [B2 C2]].
       assert (Hsame : close_target e o s1 fail = close_target e o s2 fail).
       { unfold Model.close_target. rewrite B1, B2, C1, C2, A1, A2, Hcc.
-        unfold hdr_state. cbn [ts_h]. rewrite (fold_upd_concat c1 c2 Hcc). reflexivity. }
+        unfold hdr_state. cbn [Model.ts_h]. rewrite (fold_upd_concat c1 c2 Hcc). reflexivity. }
       rewrite Hsame. destruct (close_target e o s2 fail); split; reflexivity.
   Qed.
 
@@ -653,21 +660,21 @@ Section Crypto.
                exists j, (i <= j <= i + length pre)%nat /\
                  write_chunks e ecp o st i (pre ++ p :: post) = inl j /\
                  (e_quota e = None -> j = (i + length pre)%nat)).
-    { clear. induction pre as [|x pre IH]; intros st i Hle Hlt; cbn [app write_chunks].
-      - cbn in Hle, Hlt. unfold blen in Hle, Hlt. cbn in Hle, Hlt. rewrite N.add_0_r in *.
-        unfold Model.write_chunk. destruct (o_size o <? ts_written st + blen p) eqn:E; [|apply N.ltb_ge in E; unfold blen in E; lia].
-        exists i. cbn. repeat split; try lia. reflexivity.
+    { clear Hle Hlt. intro pre0. induction pre0 as [|x pre0 IH]; intros st0 i Hle Hlt; cbn [app Model.write_chunks]; rewrite write_chunk_spec.
+      - cbn [concat] in Hle, Hlt. rewrite blen_nil, N.add_0_r in Hle, Hlt.
+        assert (Ef : fits e ecp o (ts_written st0 + blen p) = false).
+        { unfold fits. destruct (ts_written st0 + blen p <=? o_size o) eqn:E; [apply N.leb_le in E; lia|reflexivity]. }
+        rewrite Ef. exists i. cbn [length]. split; [lia|]. split; [reflexivity|]. intros _. lia.
       - cbn [concat] in Hle, Hlt. rewrite blen_app in Hle, Hlt.
-        unfold Model.write_chunk at 1.
-        destruct (o_size o <? ts_written st + blen x) eqn:E; [apply N.ltb_lt in E; lia|].
-        destruct (quota_ok e ecp false (ts_written st + blen x)) eqn:Eq; cbn [negb].
-        + destruct (IH (mkts hstate (ts_written st + blen x) (upd (ts_h st) x) (ts_next st ++ x)) (S i)) as [j [Hj [Hw Hq]]];
-            cbn [ts_written]; try lia.
-          exists j. cbn [length]. repeat split; try lia; [exact Hw | intro Hn; rewrite (Hq Hn); lia].
-        + exists i. cbn [length]. repeat split; try lia.
-          intro Hn. unfold quota_ok in Eq. rewrite Hn in Eq. discriminate. }
-    destruct (G pre st 0%nat Hle Hlt) as [j [Hj [Hw Hq]]]. exists j. rewrite Hw. cbn in *.
-    repeat split; try lia. exact Hq.
+        destruct (fits e ecp o (ts_written st0 + blen x)) eqn:Ef.
+        + destruct (IH (mkts hstate (ts_written st0 + blen x) (upd (ts_h st0) x) (ts_next st0 ++ x)) (S i)) as [j [Hj [Hw Hq]]];
+            cbn [Model.ts_written]; try lia.
+          exists j. cbn [length]. split; [lia|]. split; [exact Hw|]. intro Hn. rewrite (Hq Hn). lia.
+        + exists i. cbn [length]. split; [lia|]. split; [reflexivity|].
+          intro Hn. exfalso. unfold fits, quota_ok in Ef. rewrite Hn in Ef. rewrite andb_true_r in Ef.
+          apply N.leb_gt in Ef. lia. }
+    destruct (G pre st 0%nat Hle Hlt) as [j [Hj [Hw Hq]]]. exists j. rewrite Hw.
+    split; [lia|]. split; [reflexivity|exact Hq].
   Qed.
 
   (* a stream shorter than declared is refused at Close; nothing is stored *)
